@@ -426,7 +426,27 @@ fn gen_c01(r: &mut Rng, t: Tier, job: u64) -> Plan {
         let (h, _) = header_offsets(&p);
         add_header_cuts(r, &mut p.reads, &h, 60);
     }
+    maybe_interrupt_a_read(r, &mut p);
     p
+}
+
+/// A read() that reports Interrupted (EINTR), usually with a partial packet buffered. The tree
+/// may end the connection with that error or retry the read; either way whatever reaches the
+/// shim must still be exactly what the client sent (the callback oracle tolerates callbacks that
+/// are missing after a fault, never different ones).
+pub fn maybe_interrupt_a_read(r: &mut Rng, p: &mut Plan) {
+    if r.chance(1, 5) {
+        let n = match r.below(3) {
+            0 => r.below(6),
+            1 => r.below(40),
+            _ => r.below(400),
+        };
+        p.faults.push(Fault {
+            at: FaultAt::Read(n),
+            kind: FaultKind::Err(IoKind::Interrupted),
+            persistent: false,
+        });
+    }
 }
 
 pub fn c01() -> Simple {
@@ -535,7 +555,9 @@ fn gen_c02(r: &mut Rng, _t: Tier, _job: u64) -> Plan {
             act: Act::None,
         });
     }
-    finish_plan(r, cmds)
+    let mut p = finish_plan(r, cmds);
+    maybe_interrupt_a_read(r, &mut p);
+    p
 }
 
 pub fn c02() -> Simple {
@@ -747,6 +769,16 @@ fn gen_c05(r: &mut Rng, t: Tier, job: u64) -> Plan {
         }
         return p;
     }
+    if job % 40 == 39 {
+        // sequence ids across the TLS upgrade (SSLRequest 1, handshake response 2, reply 3),
+        // accepted and rejected
+        let mut p = super::props4::gen_c18_plan(r, t, job);
+        p.cfg.tls_offered = true;
+        if r.chance(1, 3) {
+            p.cfg.auth_reject = Some(0xA200_0000 | r.below(1 << 20) as u32);
+        }
+        return p;
+    }
     let mut o = ConvOpts::std();
     o.random_seq = true;
     o.max_cmds = 8;
@@ -834,7 +866,7 @@ pub fn c05() -> Simple {
         thorough: 5_000_000,
         budget_q: 60,
         budget_t: 600,
-        owns: &["seq-ids", "panic", "end", "resp-malformed"],
+        owns: &["seq-ids", "panic", "end", "resp-malformed", "auth-reply"],
         gen: gen_c05,
         extra: None,
         assumptions: COMMON_ASSUME,
